@@ -88,9 +88,11 @@ def _cfg(params=False, tdm=False, regs=False):
 
 
 @st.composite
-def probe_text(draw):
+def probe_text(draw, force=None):
     """A script whose metadata options and body mention pool names without declaring them first."""
     names = draw(st.lists(st.sampled_from(POOL), min_size=1, max_size=3))
+    if force:
+        names = [force] + names[:1]
     lines = ["name probe", "version 1.0"]
     k = draw(st.integers(0, 3))
     if k in (0, 2):
@@ -98,6 +100,8 @@ def probe_text(draw):
     if k in (1, 2):
         lines.append("type %s (opt=%s, flag=True)" % (draw(st.sampled_from(["tdm", "other"])), names[-1]))
     decl = draw(st.lists(st.sampled_from(["int n = 3", "float x = 0.5", "int array A =\n    1, 2", "float array p0 =\n    0.1, 0.2", "float a = 1.5"]), max_size=2, unique=True))
+    if force:
+        decl = [d for d in decl if d.split()[-3 if "array" not in d else 2] != force and (" %s " % force) not in d]
     lines.extend(decl)
     for nm in names:
         form = draw(st.sampled_from(["G(%s) | 0", "G(k=%s) | 1", "G(%s[0]) | 0", "G | %s", "G(2*%s+1) | 0", "G({%s}) | 0", "for int j9 in [1, %s]\n    H | 0"]))
@@ -122,6 +126,13 @@ def failing(draw):
         else:
             text += "G(1,,2) | 0\n"
         return text
+    if kind == "loop-body" and draw(st.booleans()):
+        # fails while a loop variable from the shared pool is bound
+        sc = draw(S.script(_cfg()))
+        v = draw(st.sampled_from(POOL))
+        vt, hdr, use = draw(st.sampled_from([("int", "0:3", "G(%s) | %s"), ("float", "[0.5, 1.5]", "G(%s) | 0"), ("str", '["s", "t"]', "G(k=%s) | 0")]))
+        body = (use % ((v, v) if use.count("%s") == 2 else (v,)))
+        return render.render(sc) + "for %s %s in %s\n    %s\n    G(zz_undefined) | 1\n" % (vt, v, hdr, body)
     tdm = kind == "tdm"
     sc = draw(S.script(_cfg(tdm=tdm)))
     r = [draw(st.integers(0, 1000)) for _ in range(8)]
@@ -198,6 +209,13 @@ def group(draw):
         if draw(st.booleans()):
             pair.reverse()
         return pair
+    if draw(st.integers(0, 5)) == 0:
+        # a load that fails while names are defined (a loop variable, declarations), then a script using such a name undefined
+        f = draw(failing())
+        cands = sorted((_declared_in(f) & set(POOL)) or set(POOL))
+        v = draw(st.sampled_from(cands))
+        between = draw(st.lists(step(), max_size=2))
+        return [{"kind": "loads", "text": f, "role": "failing"}] + between + [{"kind": "loads", "text": draw(probe_text(force=v)), "role": "probe"}]
     s1 = draw(step())
     if s1["kind"] != "mutate" and draw(st.integers(0, 3)) == 0:
         mut = {"kind": "mutate", "target": -1, "how": draw(st.sampled_from(list(range(9)) + [9, 10] * 3)), "role": "mutate"}
